@@ -706,6 +706,14 @@ pub enum Op {
     /// an item that is neither block nor pack appears in the replica's storage (a file another tool put
     /// there); its bytes are a function of its name, so the same name never carries different bytes
     Foreign { r: u8, k: u8 },
+    /// meld while reads of the *source* replica's storage fail (what: 0 blocks, 1 packs, 2 everything;
+    /// the n-th such read fails when bit n%64 of mask is set)
+    FaultyMeld { r: u8, from: u8, what: u8, mask: u64 },
+    /// composite: r, `from` and a third replica synchronise; `from` and r edit concurrently and commit; r
+    /// melds + refreshes (array conflict when both touched one array); the third replica learns both
+    /// versions; r takes a full snapshot and commits; the third replica edits on top of what it knows and
+    /// commits; r melds + refreshes from it
+    SnapshotRace { r: u8, from: u8, e1: Vec<EditStep>, e2: Vec<EditStep>, e3: Vec<EditStep> },
 }
 
 pub const FOREIGN_NAMES: [&str; 7] = ["notes.txt", "README", "blob.bin", "x.delta.bak", "y.pack.tmp", ".hidden", "\u{fc}.dat"];
@@ -739,6 +747,8 @@ impl Op {
             Op::FaultyCommit { .. } => "faultycommit",
             Op::Resubmit { .. } => "resubmit",
             Op::Foreign { .. } => "foreign",
+            Op::FaultyMeld { .. } => "faultymeld",
+            Op::SnapshotRace { .. } => "snapshotrace",
         }
     }
 }
@@ -764,6 +774,8 @@ pub struct Mix {
     pub churn: u32,
     pub faultycommit: u32,
     pub foreign: u32,
+    pub faultymeld: u32,
+    pub snaprace: u32,
     pub rich: bool,
     pub rich_info: bool,
 }
@@ -789,6 +801,8 @@ impl Default for Mix {
             churn: 1,
             faultycommit: 1,
             foreign: 0,
+            faultymeld: 0,
+            snaprace: 1,
             rich: false,
             rich_info: false,
         }
@@ -832,6 +846,16 @@ pub fn op(m: &Mix) -> BoxedStrategy<Op> {
             .boxed(),
     );
     add(if m.update > 0 { 1 } else { 0 }, r.prop_map(|r| Op::Resubmit { r }).boxed());
+    add(
+        m.faultymeld,
+        (r, any::<u8>(), 0u8..3, prop_oneof![1 => Just(u64::MAX), 1 => Just(1u64), 2 => any::<u64>()])
+            .prop_map(|(r, from, what, mask)| Op::FaultyMeld { r, from, what, mask })
+            .boxed(),
+    );
+    add(
+        m.snaprace,
+        (r, any::<u8>(), edit(m.rich), edit(m.rich), edit(m.rich)).prop_map(|(r, from, e1, e2, e3)| Op::SnapshotRace { r, from, e1, e2, e3 }).boxed(),
+    );
     add(m.foreign, (r, any::<u8>()).prop_map(|(r, k)| Op::Foreign { r, k }).boxed());
     add(m.faultycommit, (r, 0u8..2, jinfo(false)).prop_map(|(r, k, info)| Op::FaultyCommit { r, k, info }).boxed());
     add(m.mergecommit, (r, any::<u8>(), edit(m.rich)).prop_map(|(r, from, edit)| Op::MergeCommit { r, from, edit }).boxed());
